@@ -51,12 +51,17 @@ Proof. exact repeat_nil_same. Qed.
 Print Assumptions T2_repeat_nil_same.
 
 Theorem T2_merge_one_same : forall p b bd ds,
-  doc_block p b = Ok bd -> sem_of_block p bd = Ok ds ->
-  b_alignment bd <> PostPreamble -> NoDup (b_design bd) ->
+  doc_block p b = Ok bd -> sem_of_block p bd = Ok ds -> NoDup (b_design bd) ->
   exists ds', doc_sem_block p (PMerge [b] [] DRepeat None) = Ok ds' /\
               ds_sem ds' = ds_sem ds /\ ds_forder ds' = ds_forder ds /\ ds_T ds' = ds_T ds /\ ds_unsat ds' = ds_unsat ds.
 Proof. exact merge_one_same. Qed.
 Print Assumptions T2_merge_one_same.
+
+Theorem T2_merge_one_valid : forall p b ds,
+  doc_sem_block p b = Ok ds -> NoDup (b_design (ds_block ds)) ->
+  exists ds', doc_sem_block p (PMerge [b] [] DRepeat None) = Ok ds' /\ forall s, valid_b (ds_sem ds') s = valid_b (ds_sem ds) s.
+Proof. exact merge_one_valid. Qed.
+Print Assumptions T2_merge_one_valid.
 
 Theorem T2_repeat_nil_valid : forall p b ds,
   doc_sem_block p b = Ok ds -> b_alignment (ds_block ds) = EqualPreamble -> NoDup (b_design (ds_block ds)) ->
@@ -118,8 +123,9 @@ Proof.
   repeat split; try reflexivity. repeat constructor; cbn; intuition discriminate.
 Qed.
 
-(** outside the hypothesis of [T2_merge_one_same]: aligned POST_PREAMBLE with a first crossing whose
-    preamble is shorter than the longest, the block's constraints start one trial later in Merge([b]) *)
+(** aligned POST_PREAMBLE with a first crossing whose preamble is shorter than the longest: the
+    block's preamble is the unified one (reading decision 9), so Merge([b]) keeps b's constraint
+    windows (before that decision they started one trial later: this example found it) *)
 Definition ex_rep :=
   {| pf_id := 3; pf_name := "rep";
      pf_kind := FDerived {| pw_type := WTransition; pw_deps := [0] |}
@@ -128,12 +134,10 @@ Definition ex_rep :=
                           {| dl_name := "diff"; dl_weight := 1; dl_else := true; dl_table := [] |}] |}.
 Definition ex_post := PMulti [0; 1; 3] [[1]; [3]] [PKRow RAtMost 1 (TLevel 0 "red")] true DRepeat PostPreamble.
 
-Example ex_post_preamble_merge_differs :
-  option_map (fun ds => s_constraints (ds_sem ds))
-             (match doc_sem_block {| p_factors := [ex_color; ex_text; ex_rep]; p_main := ex_post |} ex_post with Ok ds => Some ds | _ => None end)
+Example ex_post_preamble_merge_same :
+  let p := {| p_factors := [ex_color; ex_text; ex_rep]; p_main := ex_post |} in
+  option_map (fun ds => s_constraints (ds_sem ds)) (match doc_sem_block p ex_post with Ok ds => Some ds | _ => None end)
   = Some [{| k_kind := KAtMost 1; k_factor := 0; k_level := 0; k_windows := [(0, 4)] |}] /\
-  option_map (fun ds => s_constraints (ds_sem ds))
-             (match doc_sem_block {| p_factors := [ex_color; ex_text; ex_rep]; p_main := ex_post |} (PMerge [ex_post] [] DRepeat None)
-              with Ok ds => Some ds | _ => None end)
-  = Some [{| k_kind := KAtMost 1; k_factor := 0; k_level := 0; k_windows := [(1, 4)] |}].
+  option_map ds_sem (match doc_sem_block p (PMerge [ex_post] [] DRepeat None) with Ok ds => Some ds | _ => None end)
+  = option_map ds_sem (match doc_sem_block p ex_post with Ok ds => Some ds | _ => None end).
 Proof. vm_compute. split; reflexivity. Qed.
